@@ -3,22 +3,8 @@
     read cleanly, the removal of the first occurrence of the option from the leading run of a
     sequence of symbols: occurrences (option, value), positionals, and the first "--".
     [Reads a u]: the tokens [a], in option mode, read as the symbols [u]. *)
-From MowCli Require Import Base Nfa Matchers Apply ApplyProofs TermProofs MatcherProofs SimProofs.
+From MowCli Require Import Base Nfa Matchers Apply View ApplyProofs TermProofs MatcherProofs SimProofs.
 Local Arguments Ascii.eqb : simpl never.
-
-Inductive vs := VO (o : nat) (v : str) | VP (t : str) | VDD.
-
-(** first occurrence of [o] in the leading run of occurrences: its value, and the sequence without it *)
-Fixpoint take (o : nat) (u : list vs) : option (str * list vs) :=
-  match u with
-  | VO o' v :: u' =>
-    if Nat.eqb o o' then Some (v, u')
-    else match take o u' with
-         | Some (v', u'') => Some (v', VO o' v :: u'')
-         | None => None
-         end
-  | _ => None
-  end.
 
 Definition positional (t : str) : Prop := t = s_dash \/ dashed t = false.
 Definition long_name (n : str) : Prop :=
